@@ -31,6 +31,7 @@ type violation struct {
 	class string // stable oracle name
 	what  string
 	fn    string // the PUBLIC method that was executing (outermost frame)
+	tag   string // C02: the abstracted shape of the false fact
 }
 
 type retSignal struct{ v *val }
@@ -110,18 +111,27 @@ type interp struct {
 	maxStep int
 	viol    *violation
 	// observer is called before every executed statement (C02).
-	observer func(in *interp, fn *a.Func, stmt *a.Node)
+	observer func(in *interp, fn *a.Func, stmt *a.Node, after bool)
 	nChecks  int
 	depth    int
+	// quiet: a fact is being evaluated (C02). Ideal arithmetic, no C01
+	// monitoring, no observer; anything that cannot be evaluated aborts the
+	// evaluation of that fact only.
+	quiet bool
 }
 
+type quietAbort struct{ why string }
+
 func (in *interp) fail(class, format string, args ...interface{}) {
+	if in.quiet {
+		panic(quietAbort{class})
+	}
 	if in.viol == nil {
 		fn := ""
 		if len(in.frames) > 0 {
 			fn = in.frames[0].fn.FuncName().Str(in.tm)
 		}
-		in.viol = &violation{class, fmt.Sprintf(format, args...), fn}
+		in.viol = &violation{class: class, what: fmt.Sprintf(format, args...), fn: fn}
 	}
 	panic(in.viol)
 }
@@ -213,7 +223,7 @@ func (in *interp) zero(typ *a.TypeExpr) *val {
 // monitor checks a concrete numeric value of an expression in statement
 // position against the range the compiler derived for it.
 func (in *interp) monitor(n *a.Expr, v *val) {
-	if v == nil || v.kind != kInt { // nil: a call of a method without a result
+	if in.quiet || v == nil || v.kind != kInt { // nil: a call of a method without a result
 		return
 	}
 	in.nChecks++
@@ -224,7 +234,7 @@ func (in *interp) monitor(n *a.Expr, v *val) {
 }
 
 func (in *interp) fits(class string, typ *a.TypeExpr, v *val, what string) {
-	if v == nil || v.kind != kInt {
+	if in.quiet || v == nil || v.kind != kInt {
 		return
 	}
 	lo, hi, ok := in.typeRange(typ)
@@ -398,7 +408,7 @@ func (in *interp) eval(n *a.Expr) *val {
 // expression's type (ideal, i.e. constant, expressions have none).
 func (in *interp) arith(n *a.Expr, v *val) *val {
 	typ := n.MType()
-	if typ == nil || typ.IsIdeal() {
+	if in.quiet || typ == nil || typ.IsIdeal() {
 		return v
 	}
 	lo, hi, ok := in.typeRange(typ.Unrefined())
@@ -563,6 +573,9 @@ func (in *interp) evalCall(n *a.Expr) *val {
 		if fn == nil {
 			unsup("method %s", name)
 		}
+		if in.quiet && fn.Effect().Impure() {
+			panic(quietAbort{"impure call inside a fact"})
+		}
 		argv := map[t.ID]*val{}
 		for _, o := range args {
 			arg := o.AsArg()
@@ -676,10 +689,14 @@ func (in *interp) tick() {
 func (in *interp) block(fn *a.Func, body []*a.Node) {
 	for _, o := range body {
 		in.tick()
-		if in.observer != nil {
-			in.observer(in, fn, o)
+		if in.observer != nil && !in.quiet {
+			in.observer(in, fn, o, false)
 		}
 		in.stmt(fn, o)
+	}
+	// The block was left normally (no jump, no return): its end facts apply.
+	if in.observer != nil && !in.quiet && len(body) > 0 {
+		in.observer(in, fn, body[len(body)-1], true)
 	}
 }
 
@@ -842,4 +859,35 @@ func (in *interp) assign(n *a.Assign) {
 	res := bigVal(z)
 	in.fits("assignment_outside_type", lt, res, fmt.Sprintf("%q %s %q", n.LHS().Str(in.tm), op.Str(in.tm), n.RHS().Str(in.tm)))
 	dst.i = res.i
+}
+
+// evalFact evaluates a boolean fact on the current state in ideal integers.
+// ok is false when the fact cannot be evaluated (outside the subset, an index
+// out of range inside the fact itself, an impure call, the step budget): such
+// a fact is skipped and counted, never reported.
+func (in *interp) evalFact(f *a.Expr) (truth bool, ok bool, why string) {
+	if in.quiet {
+		return false, false, "nested"
+	}
+	in.quiet = true
+	nframes, depth := len(in.frames), in.depth
+	defer func() {
+		in.quiet = false
+		if r := recover(); r != nil {
+			in.frames, in.depth = in.frames[:nframes], depth
+			switch x := r.(type) {
+			case quietAbort:
+				truth, ok, why = false, false, x.why
+			case unsupported:
+				truth, ok, why = false, false, x.what
+			default:
+				panic(r)
+			}
+		}
+	}()
+	v := in.eval(f)
+	if v == nil || v.kind != kBool {
+		return false, false, "not boolean"
+	}
+	return v.b, true, ""
 }
